@@ -479,6 +479,12 @@ func (t *Transaction) Wait(table string, timeout *int, where []ovsdb.Condition, 
 		if err != nil {
 			return ovsdb.ResultFromError(err)
 		}
+		// _uuid is not a column of the schema: take it from the expected row
+		if uuid, ok := rows[i]["_uuid"].(ovsdb.UUID); ok {
+			if err := info.SetField("_uuid", uuid.GoUUID); err != nil {
+				return ovsdb.ResultFromError(err)
+			}
+		}
 		expected = append(expected, info)
 	}
 
